@@ -42,12 +42,31 @@ func Decrypt(
 			return nil, err
 		}
 
-		return io.NopCloser(r.UnverifiedBody), nil
+		return io.NopCloser(&stickyErrorReader{r: r.UnverifiedBody}), nil
 	case config.NoneKey:
 		return io.NopCloser(src), nil
 	default:
 		return nil, config.ErrEncryptionFormatUnsupported
 	}
+}
+
+// stickyErrorReader keeps returning the first error of the wrapped reader.
+// Reading the body of an OpenPGP message again after its end re-runs the integrity check, which then fails with a
+// MDC hash mismatch; readers that buffer (i.e. the parallel Bzip2 decompressor) do read again after `io.EOF`
+type stickyErrorReader struct {
+	r   io.Reader
+	err error
+}
+
+func (s *stickyErrorReader) Read(p []byte) (int, error) {
+	if s.err != nil {
+		return 0, s.err
+	}
+
+	n, err := s.r.Read(p)
+	s.err = err
+
+	return n, err
 }
 
 func DecryptHeader(
